@@ -17,12 +17,11 @@ import concurrent.futures, json, os
 import vlib
 import hydcommon as hc
 
-MY_DEVS = ["TornTailFails", "AppendAfterTorn", "TornCreate"]
+FAMS = [(hc.FID_OF[d], [d]) for d in ["TornTailFails", "AppendAfterTorn", "TornCreate"]]
 
 
 def open_devs(ctx):
-    of = ctx.open_findings()
-    return [d for d in MY_DEVS if hc.FID_OF[d] in of]
+    return hc.families_of(ctx, FAMS)
 
 
 def run(ctx):
